@@ -438,7 +438,7 @@ REGISTRY = dict(
          "context expired before Wait returned, kill only after the grace period, context error (timed-out verdict) exactly when the interrupt "
          "was sent, return bounded by D - g + 3J, early finishers keep their own status, and that the observable projection satisfies the "
          "contract DeadlineL1 (six bug switches are rejected).  The real-time plan is generated by TLC from the contract's formulas; every "
-         "planned script is run through the real RunT with Params.Deadline set, helper children stamp interrupt arrival / last sign of life / "
+         "planned script (among them scripts that start late: second script of a RunT call whose T runs subtests one after the other) is run through the real RunT with Params.Deadline set, helper children stamp interrupt arrival / last sign of life / "
          "own exit on the monotonic clock, and TLC validates every observation against DeadlineL1 (interrupt window, kill window, verdict and "
          "message class, completion by the deadline, no child left, early finishers untouched).  Timing needs real time, so the exhaustive "
          "part is the model and the binding is recorded real runs with adaptive slack and reproduce-before-alarm.",
